@@ -320,9 +320,12 @@ func checkMetadataCallback(p *Program, r *Result) {
 	}
 	// sequential
 	if fn := p.lookupFunc(pkgMcap, "unindexedMessageIterator.NextInto"); fn != nil {
-		n := len(callsIn(fn, func(ci ssa.CallInstruction) bool {
-			return ci.Common().StaticCallee() == nil && !ci.Common().IsInvoke() && loadOfField(ci.Common().Value, "unindexedMessageIterator", "metadataCallback")
-		}))
+		n := 0
+		for _, rf := range regionOf(p, fn, 3) { // the arm may hand the record to an unexported helper (deliverMetadata)
+			n += len(callsIn(rf, func(ci ssa.CallInstruction) bool {
+				return ci.Common().StaticCallee() == nil && !ci.Common().IsInvoke() && loadOfField(ci.Common().Value, "unindexedMessageIterator", "metadataCallback")
+			}))
+		}
 		if n > 0 {
 			r.held("C02.c", funcName(fn), "callback on every metadata token", p.pos(fn.Pos()), "TokenMetadata arm calls the callback when installed")
 		} else {
